@@ -34,6 +34,7 @@ const (
 var (
 	errUnsupportedType  = errors.New("设置字段值时不支持的类型")
 	errNumberRange      = errors.New("数值范围设置错误")
+	errValueOverflow    = errors.New("数值超出字段类型的表示范围")
 	optionsCache        = make(map[string]optionsCacheValue)
 	cacheLock           sync.RWMutex
 	structRequiredCache = make(map[reflect.Type]requiredCacheValue)
@@ -213,11 +214,26 @@ func setMatchedPrimitiveValue(kind reflect.Kind, value reflect.Value, v any) err
 	case reflect.Bool:
 		value.SetBool(v.(bool))
 	case reflect.Int, reflect.Int8, reflect.Int16, reflect.Int32, reflect.Int64:
-		value.SetInt(v.(int64))
+		iValue := v.(int64)
+		if value.OverflowInt(iValue) {
+			return errValueOverflow
+		}
+
+		value.SetInt(iValue)
 	case reflect.Uint, reflect.Uint8, reflect.Uint16, reflect.Uint32, reflect.Uint64:
-		value.SetUint(v.(uint64))
+		uValue := v.(uint64)
+		if value.OverflowUint(uValue) {
+			return errValueOverflow
+		}
+
+		value.SetUint(uValue)
 	case reflect.Float32, reflect.Float64:
-		value.SetFloat(v.(float64))
+		fValue := v.(float64)
+		if value.OverflowFloat(fValue) {
+			return errValueOverflow
+		}
+
+		value.SetFloat(fValue)
 	case reflect.String:
 		value.SetString(v.(string))
 	default:
